@@ -45,7 +45,7 @@ import (
 // case description (also the replay format)
 
 type kase struct {
-	Kind   string `json:"kind"` // honest | flip | torsion | alts | qn | nodegrid | seq | dirty | order | mlen | deform
+	Kind   string `json:"kind"` // honest | flip | torsion | alts | qn | nodegrid | seq | dirty | order | mlen | deform | smallkey
 	Key    int    `json:"key"`
 	Series string `json:"series"` // ctr | len
 	I      int64  `json:"i"`
@@ -922,6 +922,9 @@ func run(c *fw.Ctx) {
 	if !capped && !runLengths(c, &idx) {
 		stop("time budget: message-length family incomplete")
 	}
+	if !capped && !runSmallKeys(c, &idx) {
+		stop("time budget: small-order key family incomplete")
+	}
 	// stored witnesses next (cheap, and the part of quick that reaches the two-leading-zero padding path)
 	for _, w := range witnesses {
 		idx++
@@ -1017,6 +1020,10 @@ func replay(c *fw.Ctx, raw json.RawMessage) {
 		replayDeform(c, ks)
 		return
 	}
+	if ks.Kind == "smallkey" {
+		replaySmallKey(c, ks)
+		return
+	}
 	if ks.Kind == "mlen" {
 		replayLengths(c, ks)
 		return
@@ -1063,7 +1070,8 @@ func main() {
 		Rule: "3 seeded key pairs x messages m0..mN-1 in order (32-byte counter messages, VRF message = genVrfMsg(m, 1+i%3)) plus 13 message lengths 0..1000: " +
 			"each proof generated twice, verified, carried through big.Int/header marshalling and re-verified by VRFVerify and verifyBlockVRF; " +
 			"for the first B messages of every key and every proof with a leading zero byte: all single-bit flips of proof/public key/message (direct and transported); " +
-			"adversarial prover: 8 small-order points x nonces 1..K x every guess of c*T, plus s+L; qualification grid 8 heights x 7 workingMiners x 10 totalStakes " +
+			"adversarial prover: 8 small-order points x nonces 1..K x every guess of c*T, plus s+L; small-order keys: 10 key strings (8 torsion points, second encodings of the two x=0 points) x 8 small-order Gamma x 2 messages, " +
+			"proof crafted without a secret (first nonce <= 64 with challenge = 0 mod 8), every single-bit flip of key/proof/message of every accepted base (direct and transported); qualification grid 8 heights x 7 workingMiners x 10 totalStakes " +
 			"against an exact big.Rat model, and the same grid proposer (genProve) against verifier (verifyBlockVRF on the marshalled header); " +
 			"7 stored witnesses (6 proofs with two leading zero bytes, 1 with 00 followed by a byte >= 0x80) regenerated and taken through every part; " +
 			"sequence oracles: for 13 functions all ordered pairs over 12 pool entries and all ordered triples over 4 (result stability after later calls and caller-side overwrites, arguments unchanged, " +
